@@ -174,11 +174,8 @@ func runC17(seed int64, n int, tier string, outDir string) (*Report, error) {
 			}
 		}
 	}
-	p, err := cw.Close()
-	if err != nil {
+	if err := rep.AddCases(cw); err != nil {
 		return nil, err
 	}
-	rep.CaseFiles = []string{p}
-	rep.CoqCases = cw.total
 	return rep, nil
 }
